@@ -79,7 +79,9 @@ def callers_sort(prog) -> bool:
             rv = strip_epochs(p.exit[1])
             if rv[0] == "call" and rv[1] == ("v", slot) and len(rv[2]) == 1:
                 a = rv[2][0]
-                if not (a[0] == "call" and a[1] == ("g", "sorted") and not a[3]):
+                in_place = any(e.kind == "call" and e.name == "sort" and e.target is None and e.d.get("recv") is not None and strip_epochs(e.recv) == a
+                               and not e.kwargs and not e.loops for e in p.events)  # vals.sort() before the query: the same ascending order
+                if not (a[0] == "call" and a[1] == ("g", "sorted") and not a[3]) and not in_place:
                     ok = False
     return ok
 
@@ -247,6 +249,13 @@ def check(prog, rep, tier):
             rep.bad("C02.address-agree", f"{CTX}.hashes", "remembered hashes",
                     f"hashes() can answer from a remembered list that is not known to belong to this call ({why}): an add, remove or check then addresses "
                     "the cells of a different (key, depth) and the estimate of the real key is off", hf.where())
+    # check() hashes the key exactly as add() / remove() do
+    from ..common import query_hashes_like_update
+    for q_ in ("check", "remove"):
+        bad_ = query_hashes_like_update(prog, CTX, q_)
+        if bad_:
+            rep.bad("C02.address-agree", f"{CTX}.{q_}", "other hash arguments than add", f"{bad_[1]}: for a strategy whose k-th hash depends on the requested depth "
+                    f"{q_} addresses other cells than add did, and the estimate of an added key is off", bad_[0].where())
     # default slot = min query = results[0]
     mq = prog.method(CTX, "__min_query")
     mps = paths(prog, CTX, mq)
